@@ -671,7 +671,15 @@ func c12Check(c *harness.Ctx) {
 		bound = 2
 	}
 	k := 0
-	for _, bad := range []string{"in", "out"} {
+	for _, slow := range []string{"OnOpenMessage", "GetCapabilities"} {
+		k++
+		if c.Mine(k) {
+			if !exploreScn(c, "C12", c12BusyScn(slow, bound)) {
+				return
+			}
+		}
+	}
+	for _, bad := range []string{"in", "out", "out-race"} {
 		k++
 		if c.Mine(k) {
 			if !exploreScn(c, "C12", c12DualScn(bad, bound+1)) {
@@ -708,11 +716,19 @@ func c12DualRun(bad string, ch vrt.Chooser, trace bool) (*world.World, *vrt.Exec
 		w = world.New(libIP)
 		w.NewServer(libIP)
 		pl := &world.Plugin{W: w, Peer: "P1", Marker: true}
+		// bad = in | out: both connections start together. bad = out-race: the inbound connection is opened
+		// at the very moment the remote sends its bad OPEN on the outbound one, so that its admission
+		// races with the handling of the protocol error
+		race := bad == "out-race"
+		if race {
+			bad = "out"
+		}
 		script := func(r *world.Remote, isBad bool) {
 			if isBad {
 				if _, ok := r.Expect(wire.TypeOpen); !ok {
 					return
 				}
+				w.SetFlag("bad-open-goes-out")
 				r.Send(wire.Open(64999, 90, 0x0a000002))
 				r.Deadline(2 * time.Second)
 				r.Drain()
@@ -738,6 +754,9 @@ func c12DualRun(bad string, ch vrt.Chooser, trace bool) (*world.World, *vrt.Exec
 		}
 		w.Serve(libAddr)
 		vrt.GoWorld("remote-in", func() {
+			if race {
+				w.WaitFlag("bad-open-goes-out")
+			}
 			c, err := w.NW.DialIn("10.0.0.2:40001", libAddr)
 			if err != nil {
 				return
@@ -799,8 +818,111 @@ func c12DualJudge(w *world.World) (string, string) {
 	return monitorCallbacks(w)
 }
 
+// c12BusyRun: the peer manager is kept busy while a protocol error is being handled. Connection A
+// (inbound) sits in a plugin callback that takes 400 ms (OnOpenMessage, or GetCapabilities) when, 100 ms
+// in, the remote sends a non-Cease NOTIFICATION on the outbound connection (which is in OpenSent); the
+// manager has to stop A's FSM and waits for the callback. 200 ms in, connection B arrives. Once the
+// error is handled the peer is held down: neither A nor B may be open one second after the error, B
+// must not have been served, and nothing is dialled for 60 s.
+func c12BusyRun(slow string, ch vrt.Chooser, trace bool) (*world.World, *vrt.Exec, int64) {
+	var w *world.World
+	errT := int64(-1)
+	e := vrt.Run(vrt.Config{Horizon: int64(100 * time.Second), Trace: trace, Chooser: ch}, func() {
+		w = world.New(libIP)
+		w.NewServer(libIP)
+		pl := &world.Plugin{W: w, Peer: "P1", Marker: true, NoYield: ch == nil}
+		w.NW.OnDial(remAddr, func(att int, from *net.TCPAddr) vnet.DialOutcome {
+			if att > 0 {
+				return vnet.DialOutcome{Kind: vnet.DialRefuse}
+			}
+			return vnet.DialOutcome{Kind: vnet.DialAccept, Serve: func(c *vnet.Conn) {
+				r := w.NewRemote(c, "P1")
+				defer r.Finish()
+				if _, ok := r.Expect(wire.TypeOpen); !ok {
+					return
+				}
+				w.SetFlag("out-opensent")
+				vrt.Sleep(100 * time.Millisecond)
+				errT = vrt.Cur().Now()
+				r.Send(wire.Notification(2, 2, nil))
+				r.Deadline(5 * time.Second)
+				r.Drain()
+			}}
+		})
+		if err := w.Server.AddPeer(peerConfig(remIP, 65001, 65002), pl, corebgp.WithDialerControl(w.DialControl("P1"))); err != nil {
+			panic("harness: " + err.Error())
+		}
+		w.Serve(libAddr)
+		w.WaitFlag("out-opensent")
+		// from here on the first GetCapabilities / OnOpenMessage belongs to connection A
+		world.SlowCallback.Kind, world.SlowCallback.N, world.SlowCallback.D = slow, 1, 400*time.Millisecond
+		defer func() { world.SlowCallback.Kind = "" }()
+		inbound := func(name, addr string, after time.Duration) {
+			vrt.GoWorld(name, func() {
+				vrt.Sleep(after)
+				c, err := w.NW.DialIn(addr, libAddr)
+				if err != nil {
+					return
+				}
+				r := w.NewRemote(c, "P1")
+				defer r.Finish()
+				r.Send(wire.Open(65002, 90, 0x0a000002))
+				r.Send(wire.Keepalive())
+				r.Deadline(30 * time.Second)
+				r.Drain()
+			})
+		}
+		inbound("remote-A", "10.0.0.2:40001", 0)
+		inbound("remote-B", "10.0.0.2:40002", 200*time.Millisecond)
+		vrt.Sleep(70 * time.Second)
+		w.Close()
+		w.WaitServeDone()
+	})
+	return w, e, errT
+}
+
+func c12BusyJudge(w *world.World, errT int64) (string, string) {
+	if errT < 0 {
+		return "setup", "the outbound connection did not reach OpenSent"
+	}
+	for _, c := range w.NW.Conns {
+		if c.Lib && !c.Inbound && c.Pending() > 0 {
+			return "", "" // corebgp dropped the outbound connection without reading the NOTIFICATION: no protocol error
+		}
+	}
+	for _, c := range w.NW.Conns {
+		if !c.Lib || c.Inbound && !c.Accepted {
+			continue
+		}
+		if c.ClosedAt < 0 || c.ClosedAt > errT+int64(time.Second) {
+			if c.Opened > errT+int64(time.Second) {
+				continue
+			}
+			return "connection-open-during-holddown", fmt.Sprintf("a non-Cease NOTIFICATION was received at t=%s; %s (opened at %s) is still open a second later (closed at %s, %d octets written on it)",
+				time.Duration(errT), c, time.Duration(c.Opened), time.Duration(c.ClosedAt), len(c.Sent))
+		}
+		if c.Inbound && c.Opened > errT && len(c.Sent) > 0 {
+			return "inbound-admitted-during-holddown", fmt.Sprintf("%s arrived at t=%s, after the protocol error of t=%s, and corebgp wrote %d octets on it", c, time.Duration(c.Opened), time.Duration(errT), len(c.Sent))
+		}
+	}
+	for _, ev := range w.Log {
+		if ev.Kind == "dial" && ev.T > errT && ev.T < errT+int64(60*time.Second) {
+			return "dial-during-holddown", fmt.Sprintf("protocol error at t=%s, dial attempt at t=%s", time.Duration(errT), time.Duration(ev.T))
+		}
+	}
+	return monitorCallbacks(w)
+}
+
+func c12BusyScn(slow string, bound int) *Scn {
+	return &Scn{Name: "busy/" + slow, Bound: bound, Run: func(ch vrt.Chooser, trace bool) *ScnResult {
+		w, e, errT := c12BusyRun(slow, ch, trace)
+		return finishRun("C12", "busy", w, e, trace, false, func() (string, string) { return c12BusyJudge(w, errT) }, nil)
+	}}
+}
+
 func c12DualScn(bad string, bound int) *Scn {
 	return &Scn{Name: "dual/" + bad, Bound: bound, Run: func(ch vrt.Chooser, trace bool) *ScnResult {
+		bad := bad
 		w, e, _ := c12DualRun(bad, ch, trace)
 		return finishRun("C12", "dual", w, e, trace, false, func() (string, string) { return c12DualJudge(w) }, nil)
 	}}
@@ -820,7 +942,7 @@ func c12Scn(cs c12Case, bound int) *Scn {
 func init() {
 	harness.Register(&harness.Check{
 		Property: "C12", Level: "fault_enumeration", NeedsConc: true, QuickS: 250, ThoroughS: 1500,
-		Rule:   "histories of protocol errors (all 46 kinds: NOTIFICATION sent for bad OPEN / header error / FSM error / handler UPDATE error / hold expiry, NOTIFICATION codes 1-5,7 received at remote-view states 0,1,2; both directions), non-damping events (Cease received/sent, FIN, DeletePeer+AddPeer) and elapsed time (next error as soon as possible, 299 s, 301 s after the previous one): every kind alone and after an earlier error with every timing (active and passive), all histories up to length 4 (quick) / 5 (thorough) over a reduced alphabet, chains of 5-8 errors; each run in virtual time on the real code with the hold-down measured by dial attempts (WithDialerControl) and three inbound probes (+1 ns, middle, -1 ns) and compared with a reference damping automaton (60 s, doubling, cap 300 s, amnesia after 300 s); plus all schedules within the delay bound for single-error histories; all cases non-trivial and distinct",
+		Rule:   "histories of protocol errors (all 46 kinds: NOTIFICATION sent for bad OPEN / header error / FSM error / handler UPDATE error / hold expiry, NOTIFICATION codes 1-5,7 received at remote-view states 0,1,2; both directions), non-damping events (Cease received/sent, FIN, DeletePeer+AddPeer) and elapsed time (next error as soon as possible, 299 s, 301 s after the previous one): every kind alone and after an earlier error with every timing (active and passive), all histories up to length 4 (quick) / 5 (thorough) over a reduced alphabet, chains of 5-8 errors; each run in virtual time on the real code with the hold-down measured by dial attempts (WithDialerControl) and three inbound probes (+1 ns, middle, -1 ns) and compared with a reference damping automaton (60 s, doubling, cap 300 s, amnesia after 300 s); plus all schedules within the delay bound for single-error histories, for the dual scenarios (a bad OPEN on one connection while the other completes its handshake or arrives at that very moment) and for the busy-manager scenarios (a NOTIFICATION arrives while the manager waits for a 400 ms plugin callback of the other connection and a third connection knocks); all cases non-trivial and distinct",
 		Assume: []string{"virtual clock; zero-time computation (A4)", "probes avoid exact ties with the error and the release instant"},
 		Run:    c12Check,
 		Replay: func(c *harness.Ctx, raw json.RawMessage) {
@@ -838,6 +960,9 @@ func init() {
 			scnReplay("C12", func(name string) *Scn {
 				if strings.HasPrefix(name, "dual/") {
 					return c12DualScn(name[5:], 3)
+				}
+				if strings.HasPrefix(name, "busy/") {
+					return c12BusyScn(name[5:], 3)
 				}
 				var cs c12Case
 				if json.Unmarshal([]byte(name[len("schedule/"):]), &cs) != nil {
